@@ -38,7 +38,7 @@ def model_check(chk, depth, clauses, tag):
     checked on the emitted behaviours (emitted_behaviours)"""
     r = tlc.run('MC_PowerLedger', cfg_text=ledger_cfg(depth, clauses), timeout=3000, tag=f'{tag}-mc')
     chk.add_mc(f'MC_PowerLedger depth={depth} [{len(clauses)} clauses]', r)
-    for w in ('WitnessMuxAfterOps', 'WitnessNoiseInBand', 'WitnessInterleavedMux'):
+    for w in ('WitnessMuxAfterOps', 'WitnessNoiseInBand', 'WitnessInterleavedMux', 'WitnessThreeParts'):
         rw = tlc.run('MC_PowerLedger', cfg_text=ledger_cfg(4, [f'INVARIANT {w}']), timeout=600, tag=f'{tag}-witness')
         if rw.violated != w:
             raise Machinery(f'vacuous model: {w} is not reachable')
@@ -104,17 +104,17 @@ def apply_step(parts, step, variant):
             si.add_nli(vec)
         return parts
     if op == 'Demux':
-        si = parts[0]
+        si = parts[j - 1]
         have = ids_of(si)
         out = []
-        for exp in step['parts']:                       # the model says which channels go where, selected ones first
+        for exp in step['parts'][j - 1:j + 1]:          # the model says which channels go where, selected ones first
             ids = [ch['id'] for ch in exp]
             if ids == list(range(min(ids), max(ids) + 1)):
                 band = {'f_min': F1 + SPACING * (min(ids) - 1) - SPACING / 2, 'f_max': F1 + SPACING * (max(ids) - 1) + SPACING / 2}
                 out.append(demuxed_spectral_information(si, band))          # a band
             else:
                 out.append(select_channels(si, np.array([c in ids for c in have])))   # the complement of a band
-        return out
+        return parts[:j - 1] + out + parts[j:]
     if op == 'Mux':
         return [muxed_spectral_information(list(parts))]
     raise Machinery(f'unknown model operation {op}')
@@ -135,8 +135,11 @@ def compare(parts, step, worst, what):
         if si is None or ids_of(si) != [ch['id'] for ch in exp]:
             return f'channels {None if si is None else ids_of(si)} instead of {[ch["id"] for ch in exp]}'
         if what == 'ledger':
-            for name, key in LEDGER:
-                got = np.asarray(getattr(si, name), dtype=float)
+            views = [(name, key, np.asarray(getattr(si, name), dtype=float)) for name, key in LEDGER]
+            car = si.carriers                       # the per-channel view handed to users (Channel tuples)
+            views += [(f'carriers.{name}', key, np.array([getattr(c, name) for c in car], dtype=float))
+                      for name, key in LEDGER[1:]]
+            for name, key, got in views:
                 for k, ch in enumerate(exp):
                     e = float(fr(ch[key]))
                     d = abs(got[k] - e)
@@ -172,10 +175,18 @@ def replay(chk, behaviours, what='ledger'):
         ok = True
         try:
             parts = [launch_si(powers)]
+            source = None                   # the real spectrum the sub-spectra were extracted from (model: src)
             for n, step in enumerate(hist):
+                if step['op'] == 'Demux' and len(parts) == 1:
+                    source = parts[0]
                 parts = apply_step(parts, step, (key + n) % 4)
+                if step['op'] == 'Mux':
+                    source = None
                 steps += 1
                 bad = compare(parts, step, worst, what)
+                if not bad and what == 'ledger' and source is not None:
+                    bad = compare([source], dict(parts=[step['src']]), worst, 'ledger')
+                    bad = bad and 'source spectrum of the extraction: ' + bad
                 if bad:
                     prev = hist[n - 1]['op'] if n else 'Launch'
                     chk.violation(f'B2|{step["op"]}|after-{prev}|{what}-differ-from-model',
